@@ -328,13 +328,17 @@ func c08Total(watch *harness.Client) int {
 
 func runC08(c *explore.Ctx) {
 	c.Level = "model_checking"
-	c.Rule = "E2 (virtual clock): every will setting (QoS, retain, delay absent/5s, properties, v3.1.1/v5, session expiry absent/3/10 or v3 clean/non-clean) x every way the connection ends (DISCONNECT 0x00, DISCONNECT 0x04, socket close, malformed packet, keep-alive timeout, take-over clean0/clean1, server-side Client.Close, TerminateSession) x every sequence of <=2 follow-ups (advance 4s/6s/21s, reconnect clean0/clean1) on a fresh in-process broker; a reference will machine (armed / due = end + min(delay, session expiry) / cancelled by re-attach / immediate when the session ends) predicts how many copies an independent Retain-As-Published subscriber has received after every step, and their content."
+	c.Rule = "E2 (virtual clock): every will setting (QoS, retain, delay absent/5s, properties, v3.1.1/v5, session expiry absent/3/10 or v3 clean/non-clean) x every way the connection ends (DISCONNECT 0x00, DISCONNECT 0x04, socket close, malformed packet, keep-alive timeout, take-over clean0/clean1, server-side Client.Close, TerminateSession) x every sequence of <=2 follow-ups (advance 4s/6s/21s, reconnect clean0/clean1) on a fresh in-process broker; a reference will machine (armed / due = end + min(delay, session expiry) / cancelled by re-attach / immediate when the session ends) predicts how many copies an independent Retain-As-Published subscriber has received after every step, and their content. E3: the end of the connection (close, DISCONNECT+close, pure take-over) races a CONNECT of the same client id (clean start 0/1), and the delayed-will timer races a re-attaching CONNECT, under every schedule with <=1 (quick) / <=2 (thorough) deviations: the number of copies is the schedule-independent expected one (timer race: at most one)."
 	c.Trusted = []string{"vsched virtual clock and memconn deadlines", "refmqtt codec"}
 	c.Assumptions = []string{"a reconnect within 1s of the due instant is not judged", "Stop() as a way to end the connection is covered by C15, not here"}
 	if rc := replayCase(c); rc != nil {
+		if c08RaceReplay(c, rc) {
+			return
+		}
 		c08Run(c, c08Will{byte(rc["v"].(float64)), byte(rc["q"].(float64)), rc["r"].(bool), int64(rc["d"].(float64)), rc["p"].(bool), int64(rc["e"].(float64))}, int(rc["ending_i"].(float64)), intsOf(rc["follow_i"]))
 		return
 	}
+	c08RacePhase(c)
 	vars := c08Variants(c.Quick())
 	var follows [][]int
 	follows = append(follows, nil)
